@@ -32,6 +32,14 @@ package receiver
 //@   requires lock_free_on_entry: !held(r.mu)
 //@   lockcheck
 //@   modifies heap
+// The polling loop: a failing listing is only logged; the loop ends only when
+// the sleep between listings is cancelled (its own context).
+//@ func (r *Receiver) Run
+//@   modifies heap
+//@   assumes flags_start_at_zero: ghost_loc_sleepEnded == 0
+//@   after_call utils.SleepContext#0 ghost loc_sleepEnded := ite(ret0 != nil, 1, 0)
+//@   ensures polls_until_cancelled: ghost_loc_sleepEnded == 1
+
 // RunOnce is called from Receiver.Run's loop and from the sync loop, neither
 // of which holds a mutex.
 //@ func (r *Receiver) RunOnce
@@ -78,5 +86,6 @@ package receiver
 //@   after_call snapshot.LoadData#0 ghost loc_undecodable := ite(ret1 != nil, 1, 0)
 //@   assumes decode_flag_starts_at_zero: ghost_loc_undecodable == 0
 //@   ensures every_undecodable_blob_is_marked_and_remembered: ghost_loc_undecodable == 1 ==> r0 != nil && ghost_ncorrupt == old(ghost_ncorrupt) + 1 && d.last.FullName == ni.FullName
+//@   at_call snapshot.LoadData#0 assert decoded_only_under_the_decompress_limit: ghost_held == old(ghost_held) + 2
 //@   at_call receiver.(*Receiver).MarkCorrupt#0 assert marks_this_blob: sameSlice(arg1, ni.FullName)
 //@   at_call receiver.(*Receiver).MarkCorrupt#0 assert decompress_token_released: ghost_held == old(ghost_held) + 1
